@@ -67,8 +67,8 @@ theorem cim_setStatus {m : M} (h : CIm j0 d rr m) (f : Status → Status)
 
 theorem cim_updateCondition {m : M} (h : CIm j0 d rr m) (c : Cond) : CIm j0 d rr (updateCondition m c).2 := by
   unfold updateCondition; split
-  · exact cim_statusUpdate (cim_setStatus (cim_setStatus h _ h.ml) _ h.ml)
-  · exact cim_setStatus h _ h.ml
+  · refine cim_statusUpdate (cim_setStatus (cim_setStatus h _ ?_) _ ?_) <;> exact h.ml
+  · exact ⟨h.spec, h.d, h.rr, h.ml, h.al, h.j0⟩
 
 theorem cim_jobUpdate {m : M} (hd : m.mem.spec.direct = d) (hr : m.mem.spec.resvRef = rr)
     (hal : livePhase m.api.status.phase = true) (hj : m.job0 = j0) (ok : m.jobUpdate.1 = true) :
@@ -105,7 +105,7 @@ def gr (x : X) : Nat × X := if x.readResv.1 = 1 then x.readResv.2.readResv else
 
 theorem getResv_eq (x : X) :
     x.getResv = ((gr x).1, { (gr x).2 with looks := x.looks ++ [(gr x).1],
-                                          last := if (gr x).1 = 0 then (gr x).2.m.env.resv else none }) := rfl
+                                           last := if (gr x).1 = 0 then (gr x).2.m.env.resv else none }) := rfl
 
 theorem kp_gr (x : X) : Kp x (gr x).2 := by
   unfold gr; split
@@ -183,8 +183,8 @@ structure Ev (j0 : Job) (d rr : Bool) (s : XSnap) : Prop where
   lz : ∀ l ∈ s.looks, l = 0
   ml : livePhase s.mem.status.phase = true
   al : livePhase s.api.status.phase = true
-  d : s.mem.spec.direct = d
-  rr : s.mem.spec.resvRef = rr
+  hd : s.mem.spec.direct = d
+  hrr : s.mem.spec.resvRef = rr
   pod : s.pod.isSome = true
   last : rr = true → ∃ r3, s.last = some r3 ∧ resvSucceeded r3 = false
 
@@ -301,7 +301,7 @@ theorem spec_preparePendingX {P : XSnap → Prop} {x : X} (h : CI j0 d rr x) : S
             have c1 : CI j0 d rr ((x.readPod.2.setSpec fun s => { s with podUID := p.uid }).jobUpdate).2 :=
               ⟨cim_jobUpdate (m := (x.readPod.2.setSpec fun s => { s with podUID := p.uid }).pre.m)
                 hy.m.d hy.m.rr hy.m.al hy.m.j0 hok, hy.lz⟩
-            exact spec_okOrX _ (ci_statusUpdate (ci_setStatus c1 _ (by decide)))
+            exact spec_okOrX _ (ci_statusUpdate (ci_setStatus c1 _ (by exact (by decide : livePhase Ph.running = true))))
               ((k1.trans (kp_setStatus _ _)).trans (kp_statusUpdate _))
           · exact Or.inl k1.xs
 
@@ -365,6 +365,11 @@ theorem Spec.from {Q : X → Prop} {P : XSnap → Prop} {x y : X} {r : RX} (k : 
     · exact Or.inl (h.trans k.xs)
     · exact Or.inr ⟨s, by rw [hs, k.xs], he⟩
 
+/-- the snapshot `X.evictCall` records -/
+def snapOf (z : X) (p : Pod) : XSnap :=
+  { env := z.pre.m.env, job0 := z.m.job0, mem := z.m.mem, api := z.m.api,
+    looks := z.looks, gate := z.gate, last := z.last, pod := some p }
+
 theorem spec_evictPodX {x : X} (h : CI j0 d rr x) : Spec j0 d rr T (Rel x) x (evictPodX x) := by
   unfold evictPodX
   split
@@ -382,15 +387,11 @@ theorem spec_evictPodX {x : X} (h : CI j0 d rr x) : Spec j0 d rr T (Rel x) x (ev
           · exact Or.inl ky.xs
           · refine Spec.from ky (Spec.bind (spec_boundByOtherX hy none) ?_)
             intro z hz kz qz
-            have hev : Ev j0 d rr { env := z.pre.m.env, job0 := z.m.job0, mem := z.m.mem, api := z.m.api,
-                                   looks := z.looks, gate := z.gate, last := z.last, pod := some p } :=
-              ⟨hz.m.j0, hz.lz, hz.m.ml, hz.m.al, hz.m.d, hz.m.rr, rfl, qz rfl⟩
-            have hrel : Rel x { env := z.pre.m.env, job0 := z.m.job0, mem := z.m.mem, api := z.m.api,
-                                looks := z.looks, gate := z.gate, last := z.last, pod := some p } :=
-              Rel.trans (ky.trans kz) ⟨rfl, (kp_pre z).pre, Nat.le_refl _⟩
+            have hev : Ev j0 d rr (snapOf z p) := ⟨hz.m.j0, hz.lz, hz.m.ml, hz.m.al, hz.m.d, hz.m.rr, rfl, qz rfl⟩
+            have hrel : Rel x (snapOf z p) := Rel.trans (ky.trans kz) ⟨rfl, (kp_pre z).pre, Nat.le_refl _⟩
             split
-            · exact Or.inr ⟨_, (kp_updateCondition _ _).xs, hev, hrel⟩
-            · exact Or.inr ⟨_, rfl, hev, hrel⟩
+            · exact Or.inr ⟨snapOf z p, (kp_updateCondition _ _).xs, hev, hrel⟩
+            · exact Or.inr ⟨snapOf z p, rfl, hev, hrel⟩
 
 theorem spec_evictDirectX {x : X} (h : CI j0 d rr x) : Spec j0 d rr T (Rel x) x (evictDirectX x) := by
   unfold evictDirectX
@@ -476,7 +477,7 @@ theorem spec_prepareScheduleSuccessX {P : XSnap → Prop} {x : X} (h : CI j0 d r
       · exact Or.inl (kp_readPod x).xs
       · split
         · exact Or.inl ((kp_readPod x).trans (kp_abortWith _ _)).xs
-        · exact spec_okOrX _ (ci_updateCondition (ci_setStatus (ci_readPod h) _ (ci_readPod h).m.ml) _)
+        · exact spec_okOrX _ (ci_updateCondition (ci_setStatus (ci_readPod h) _ (by exact (ci_readPod h).m.ml)) _)
             (((kp_readPod x).trans (kp_setStatus _ _)).trans (kp_updateCondition _ _))
 
 theorem kp_podScheduledDoneX (x : X) : Kp x (podScheduledDoneX x) := by
@@ -516,9 +517,9 @@ theorem spec_waitBindX {P : XSnap → Prop} {x : X} (h : CI j0 d rr x) (r : Resv
 theorem spec_boundSuccessX {P : XSnap → Prop} {x : X} (h : CI j0 d rr x) : Spec j0 d rr T P x (boundSuccessX x) := by
   unfold boundSuccessX
   split
-  · exact spec_okOrX _ (ci_statusUpdate (ci_setStatus (ci_setStatus h _ h.m.ml) _ h.m.ml))
+  · exact spec_okOrX _ (ci_statusUpdate (ci_setStatus (ci_setStatus h _ (by exact h.m.ml)) _ (by exact h.m.ml)))
       (((kp_setStatus _ _).trans (kp_setStatus _ _)).trans (kp_statusUpdate _))
-  · exact ⟨ci_setStatus h _ h.m.ml, kp_setStatus _ _, trivial⟩
+  · exact ⟨ci_setStatus h _ (by exact h.m.ml), kp_setStatus _ _, trivial⟩
 
 theorem spec_waitReadyX {P : XSnap → Prop} {x : X} (h : CI j0 d rr x) : Spec j0 d rr T P x (waitReadyX x) := by
   unfold waitReadyX
@@ -559,7 +560,7 @@ theorem spec_withReservationX {x : X} (h : CI j0 d rr x) (r : Resv) :
       split
       · exact Or.inl (xs_waitPendingPodX h3)
       · rename_i hm
-        have k03 : Kp x1 x3 := k2.trans k3
+        have k03 : Kp x x3 := k1.trans (k2.trans k3)
         refine Spec.bind (Spec.mono (spec_evictPodX h3) (fun _ q => q) ?_) ?_
         · intro s _ hrel
           refine ⟨⟨by simpa using hp, by simpa using he, ?_, by simpa using hm⟩, hrel.gate.trans k03.gate,
@@ -678,10 +679,10 @@ theorem goodX_of {w : World} {s : XSnap} (he : Ev w.job w.job.spec.direct w.job.
   memLive := he.ml
   apiLive := he.al
   pod := he.pod
-  last := fun h => he.last (by rw [← he.rr]; exact h)
+  last := fun h => he.last (by rw [← he.hrr]; exact h)
   gates := fun hd => by
     obtain ⟨hrr, hl, r2, hg, hpg⟩ := hp hd
-    exact ⟨by rw [he.rr]; exact hrr, hl, r2, hg, hpg⟩
+    exact ⟨by rw [he.hrr]; exact hrr, hl, r2, hg, hpg⟩
 
 /-- the evictor log of one extended reconcile: empty, or one snapshot that is `GoodX` -/
 theorem reconcileX_evicts (w : World) (sc : Script) :
@@ -707,5 +708,126 @@ theorem evictX_once (w : World) (sc : Script) : (reconcileX w sc).2.evicts.lengt
   rcases reconcileX_evicts w sc with h | ⟨s', h, _⟩
   · rw [h]; exact Nat.zero_le _
   · rw [h]; exact Nat.le_refl _
+
+/-! ### histories -/
+
+theorem stepX_good (w : World) (op : OpX) : ∀ s ∈ (stepX w op).2.evicts, GoodX w s := by
+  cases op with
+  | reconX sc => intro s hs; exact evictX_good w sc s hs
+  | env op =>
+    cases op <;> intro s hs <;> first
+      | exact evictX_good w _ s hs
+      | exact absurd hs List.not_mem_nil
+
+/-- every evictor call of a history is `GoodX` for the world its reconcile started from -/
+theorem runX_good (ops : List OpX) : ∀ w : World, ∀ s ∈ (runX w ops).2, ∃ w', GoodX w' s := by
+  induction ops with
+  | nil => intro w s hs; exact absurd hs List.not_mem_nil
+  | cons op ops ih =>
+    intro w s hs
+    simp only [runX, List.mem_append] at hs
+    rcases hs with hs | hs
+    · exact ⟨w, stepX_good w op s hs⟩
+    · exact ih _ s hs
+
+/-- over all histories incl. read faults and mid-reconcile events: never an eviction for a job that is (being
+    marked) Failed/Succeeded -/
+theorem failed_job_never_evictsX (ops : List OpX) :
+    ∀ w : World, ∀ s ∈ (runX w ops).2, livePhase s.mem.status.phase = true ∧ livePhase s.api.status.phase = true := by
+  intro w s hs
+  obtain ⟨w', hg⟩ := runX_good ops w s hs
+  exact ⟨hg.memLive, hg.apiLive⟩
+
+theorem evict_lookups_answered_history (ops : List OpX) :
+    ∀ w : World, ∀ s ∈ (runX w ops).2, ∀ l ∈ s.looks, l = 0 := by
+  intro w s hs
+  obtain ⟨w', hg⟩ := runX_good ops w s hs
+  exact hg.looks
+
+/-! ### non-live phases are absorbing -/
+
+theorem doMigrateX_dead {x : X} (h : livePhase x.m.mem.status.phase = false) : doMigrateX x = x := by
+  unfold doMigrateX
+  split
+  · rfl
+  · split
+    · rfl
+    · rename_i hl
+      rw [h] at hl
+      exact absurd rfl hl
+
+/-- non-live phases are absorbing in the extended model too -/
+theorem terminalX_absorbing (w : World) (sc : Script) (h : livePhase w.job.status.phase = false) :
+    (reconcileX w sc).1.job = w.job ∧ (reconcileX w sc).2.evicts = [] := by
+  unfold reconcileX
+  split
+  · exact ⟨rfl, rfl⟩
+  · split
+    · exact ⟨rfl, rfl⟩
+    · have hx : doMigrateX ((X.init w sc).read .getJob fun _ => true).2 = ((X.init w sc).read .getJob fun _ => true).2 :=
+        doMigrateX_dead h
+      rw [hx]
+      exact ⟨rfl, rfl⟩
+
+theorem stepX_terminal (w : World) (op : OpX) (h : livePhase w.job.status.phase = false) :
+    (stepX w op).1.job.status = w.job.status ∧ (stepX w op).2.evicts = [] := by
+  cases op with
+  | reconX sc =>
+    have := terminalX_absorbing w sc h
+    exact ⟨by show (reconcileX w sc).1.job.status = _; rw [this.1], this.2⟩
+  | env op =>
+    cases op with
+    | recon f =>
+      have := terminalX_absorbing w ⟨f, 0, []⟩ h
+      exact ⟨by show (reconcileX w ⟨f, 0, []⟩).1.job.status = _; rw [this.1], this.2⟩
+    | _ => exact ⟨rfl, rfl⟩
+
+theorem terminalX_forever (ops : List OpX) :
+    ∀ w : World, livePhase w.job.status.phase = false →
+      (runX w ops).1.job.status = w.job.status ∧ (runX w ops).2 = [] := by
+  induction ops with
+  | nil => intro w _; exact ⟨rfl, rfl⟩
+  | cons op ops ih =>
+    intro w h
+    have hs := stepX_terminal w op h
+    have h' : livePhase (stepX w op).1.job.status.phase = false := by rw [hs.1]; exact h
+    have hr := ih _ h'
+    simp only [runX]
+    exact ⟨hr.1.trans hs.1, by rw [hs.2, hr.2]; rfl⟩
+
+/-! ### non-vacuity -/
+
+def xrJob : Job :=
+  { spec := ⟨false, false, 300, true, 1, true, false, 0⟩,
+    status := ⟨Ph.running, CT.resvCreated, 0, 0, false, [⟨CT.resvCreated, true, 0, 0⟩]⟩ }
+
+def xrWorld : World :=
+  { job := xrJob,
+    env := ⟨10, some ⟨1, 3, 0, 0, false⟩, some ⟨RPh.available, 1, 1, 0, false, 0, false, true, false⟩, 0, false, 0, 1⟩ }
+
+/-- no fault, no event: one eviction, all three reservation lookups answered -/
+example : (reconcileX xrWorld ⟨0, 0, []⟩).2.evicts.map (fun s => s.looks) = [[0, 0, 0]] := by decide
+
+/-- the gate object and the object of the last lookup are recorded -/
+example : (reconcileX xrWorld ⟨0, 0, []⟩).2.evicts.map (fun s => (s.gate.isSome, s.last.isSome, s.pod.isSome)) =
+    [(true, true, true)] := by decide
+
+/-- a read fault at the third lookup (read 6): no eviction, the job stays Running -/
+example : (reconcileX xrWorld ⟨0, 64, []⟩).2.evicts = [] ∧
+    (reconcileX xrWorld ⟨0, 64, []⟩).1.job.status.phase = Ph.running := by decide
+
+/-- the reservation vanishes right before the third lookup (API calls 7 and 8 are its two Gets; calls 0‥6 are the
+    reads listed above plus the ReservationScheduled status write): no eviction, the job is aborted -/
+example : (reconcileX xrWorld ⟨0, 0, [(7, .resv none)]⟩).2.evicts = [] ∧
+    (reconcileX xrWorld ⟨0, 0, [(7, .resv none)]⟩).1.job.status.phase = Ph.failed := by decide
+
+/-- the reservation turns Succeeded (bound by somebody else) right before the third lookup: no eviction, Failed -/
+example : (reconcileX xrWorld ⟨0, 0, [(7, .resv (some ⟨RPh.succeeded, 1, 1, 0, false, 9, false, true, false⟩))]⟩).2.evicts = [] ∧
+    (reconcileX xrWorld ⟨0, 0, [(7, .resv (some ⟨RPh.succeeded, 1, 1, 0, false, 9, false, true, false⟩))]⟩).1.job.status.phase
+      = Ph.failed := by decide
+
+/-- a terminal job: nothing happens even with a script -/
+example : (reconcileX { xrWorld with job := { xrJob with status := { xrJob.status with phase := Ph.failed } } }
+    ⟨0, 0, [(1, .pod none)]⟩).2.evicts = [] := by decide
 
 end KoordVerif.C17
